@@ -15,10 +15,10 @@ RULE = ("Scalar expressions are generated as a chain of 0-2 tensor->tensor opera
         "drawn subset of leaves and of their cores is tracked (requires_grad_ directly or grad.watch). Oracle: the same "
         "expression on dense arrays built from the same leaf cores through the checker's contraction, differentiated by "
         "autograd (agreement at 1e-9 relative), central finite differences along 2 random directions (1e-6), equal "
-        "values, and grad.grad / grad.grad_list returning exactly those derivatives with the core shapes (None for "
+        "values, and grad.grad / grad.grad_list (tensor list = a drawn ordered subset of all leaves, so mixed orders and operators; both all_in_one settings) returning exactly those derivatives, grouped per tensor, with the core shapes (None for "
         "untracked cores). Non-trivial: >=2 distinct op kinds and a proper subset of cores tracked.")
 BUDGET = {"quick": 3200, "thorough": 64000}
-FLOORS = {"quick": {"chain:2": 500, "grad_api": 300, "track:watch": 500, "operator_tracked": 300}}
+FLOORS = {"quick": {"chain:2": 500, "grad_api": 300, "grad_list_mixed_orders": 60, "track:watch": 500, "operator_tracked": 300}}
 ASSUMPTIONS = ["norm terminals are evaluated away from zero (non-differentiable there)", "real float64 only"]
 
 CHAIN_OPS = ["add", "sub", "mul", "matvec", "vecmat", "matmat_vec", "sadd", "smul", "sdiv", "rsub", "neg", "mprod", "diag_rt",
@@ -72,6 +72,9 @@ def strategy_case(draw):
         tr["x1"] = [draw(st.integers(0, d - 1))]
     case["tracked"] = tr
     case["grad_api"] = draw(st.sampled_from(["none", "none", "grad", "grad_list"]))
+    if case["grad_api"] == "grad_list":
+        # the tensors handed to grad_list: any leaves in any order (x3 has fewer cores than the others, A/B are operators)
+        case["gl_leaves"] = draw(st.lists(st.sampled_from(["x1", "x2", "x3", "A", "B"]), min_size=1, max_size=4, unique=True))
     return case
 
 
@@ -376,16 +379,27 @@ def execute(case):
                     if ck.failed is None:
                         ck.bound(fro(r - ref), 1e-12 * (gnorm + scaleL), "grad_api_value")
         else:
+            gl = case.get("gl_leaves", ["x1", "x2"])
+            lens = [len(c.cores[l]) for l in gl]
+            if len(set(lens)) > 1:
+                ck.label("grad_list_mixed_orders")
             if case["seed"] % 2:
-                flat = lib(lambda: T.grad.grad_list(val, [leaves2["x1"], leaves2["x2"]]))      # all_in_one=True (default)
-                res = [flat[:d], flat[d:]] if isinstance(flat, list) and len(flat) == 2 * d else flat
+                flat = lib(lambda: T.grad.grad_list(val, [leaves2[l] for l in gl]))      # all_in_one=True (default)
+                res = flat
+                if isinstance(flat, list) and len(flat) == sum(lens):
+                    res, o = [], 0
+                    for n_ in lens:
+                        res.append(flat[o:o + n_])
+                        o += n_
                 ck.label("grad_list_all_in_one")
             else:
-                res = lib(lambda: T.grad.grad_list(val, [leaves2["x1"], leaves2["x2"]], all_in_one=False))
-            ck.require(isinstance(res, list) and len(res) == 2 and all(len(r) == d for r in res), "grad_api_len", "grad_list structure")
+                res = lib(lambda: T.grad.grad_list(val, [leaves2[l] for l in gl], all_in_one=False))
+            ck.require(isinstance(res, list) and len(res) == len(gl) and all(isinstance(r, list) and len(r) == n_ for r, n_ in zip(res, lens)),
+                       "grad_api_len", "grad_list structure: expected one list per tensor with lengths %s, got %s" % (
+                           lens, [len(r) if isinstance(r, list) else type(r).__name__ for r in res] if isinstance(res, list) else type(res).__name__))
             if ck.failed is None:
-                for leaf, lst in zip(("x1", "x2"), res):
-                    for i in range(d):
+                for leaf, lst in zip(gl, res):
+                    for i in range(len(c.cores[leaf])):
                         refs = [a for (l, j, _), a in zip(tracked, gtt) if l == leaf and j == i]
                         if refs and leaf in used:
                             ck.require(lst[i] is not None and list(lst[i].shape) == list(c.cores[leaf][i].shape), "grad_api_shape", "grad_list entry missing")
